@@ -768,7 +768,7 @@ impl Word {
                                     if let Some(mods) = modifiers {
                                         let (m, maybe_len, maybe_tone) = self.alias_match_ipa_with_mods(i, j, segment, mods);
                                         if !m { is_match = false; break; }
-                                        if let Some(len) = maybe_len { j+=len; } else { j+=1; }
+                                        if let Some(len) = maybe_len { j+=len; plus_match_len = true; } else { j+=1; }
                                         if maybe_tone { strip_tone = true; }
                                     } else {
                                         if j >= syll.segments.len() || syll.segments[j] != *segment {
